@@ -184,11 +184,24 @@ func makeGen(rnd *hx.Rand, version, prop string) genFunc {
 				if how == 3 {
 					how = 0
 				}
-			case rnd.Chance(1, 10):
+			case rnd.Chance(1, 7):
+				// CLAIM_PREVIOUS: with or without state to reclaim, with or without a delegation type
 				claim = "p"
+				dt := ""
+				if rnd.Chance(1, 3) {
+					dt = fmt.Sprintf(" dt=%d", 1+rnd.Intn(2))
+				}
 				if len(opens) > 0 && rnd.Chance(2, 3) {
 					s := opens[rnd.Intn(len(opens))]
-					return fmt.Sprintf("open %d %d %d %d %d %d p %d 0", id, s.c.long, s.c.ver, s.key, acc, how%3, s.leaf)
+					return fmt.Sprintf("open %d %d %d %d %d %d p %d 0%s", id, s.c.long, s.c.ver, s.key, acc, how%3, s.leaf, dt)
+				}
+				if dt != "" {
+					var leaves []int
+					for lf := range r.leafFH {
+						leaves = append(leaves, lf)
+					}
+					sort.Ints(leaves)
+					return fmt.Sprintf("open %d %d %d %d %d %d p %d 0%s", id, c.long, c.ver, rnd.Intn(3), acc, how%3, leaves[rnd.Intn(len(leaves))], dt)
 				}
 			case rnd.Chance(1, 4):
 				name = 1
